@@ -1,214 +1,38 @@
-(* PasswordCfb.v — the part of the compound-file reader (src/cfb.rs) that property C20 rests on:
-     Header::from_reader   (512-byte read, OLE signature, sector shift, mini-sector shift, fields),
-     Directory::from_slice (name: Encoding::decode of the 64-byte name field — with the
-                            byte-order-mark sniffing encoding_rs does on every call — cut at the
-                            first NUL; start; len),
-     the directory array   (chunks(128) of the directory chain, EmptyRootDir),
-     Cfb::has_directory    (any entry whose name equals the target),
-   and check_for_password_protected of src/xlsx/mod.rs and src/xlsb/mod.rs (identical bodies):
-     `if let Ok(cfb) = Cfb::new(..) { if cfb.has_directory("EncryptedPackage") { Err(Password) } } Ok(())`.
-   What lies between the header and the directory array (DIFAT / FAT loading, sector chains, the
-   mini stream) is the subject of property C13 (Cfb.v, built separately); here it enters as a
-   function [load : header -> bytes -> outcome bytes] (the directory chain), see cfb_dirs.
+(* PasswordCfb.v — property C20, OOXML part: check_for_password_protected of src/xlsx/mod.rs and
+   src/xlsb/mod.rs (identical bodies):
+     `if let Ok(cfb) = Cfb::new(..) { if cfb.has_directory("EncryptedPackage") { Err(Password) } } Ok(())`
+   over the model of the compound-file reader Cfb.v (property C13: Header::from_reader, Cfb::new,
+   Directory::from_slice — names decoded with decode_without_bom_handling since 2d0895e —,
+   the directory array by chunks_exact(128), Cfb::has_directory).  Nothing of src/cfb.rs is
+   modelled a second time here; this file adds
+     * the check on the BYTES of a file ([ooxml_check_bytes] / [ooxml_new_bytes]),
+     * the same check over a directory array ([ooxml_check] / [ooxml_new], the form the first
+       round's theorems were stated in; [has_directory] below is Cfb.has_directory on the array),
+     * [parse_dirs]: the directory-array step of Cfb::new in isolation (used by the correspondence
+       run on big files, where only header and directory chain travel to the model),
+     * the writer of one directory entry ([dir_entry_bytes]) with free bytes behind the name.
    Definitions only; everything computes.  Proofs: PasswordCfb_proofs.v. *)
-From Calamine Require Import Prelude.
+From Calamine Require Import Prelude Utf16 Cfb.
 Open Scope N_scope.
 Set Implicit Arguments.
 
 Definition E_PASSWORD : N := 1.
 Definition E_OTHER : N := 2.
-(* CfbError classes *)
-Definition E_IO : N := 11.
-Definition E_OLE : N := 12.
-Definition E_INVALID : N := 13.
-Definition E_EMPTY_ROOT : N := 14.
 
-(* little-endian value of a byte list; read of k bytes at offset off (callers guard lengths) *)
-Definition le_val (l : list N) : N := fold_right (fun b acc => b + 256 * acc) 0 l.
-Definition rd (k off : nat) (b : list N) : N := le_val (firstn k (skipn off b)).
-
-Fixpoint bytes_eqb (a b : list N) : bool :=
-  match a, b with
-  | [], [] => true
-  | x :: a', y :: b' => (x =? y) && bytes_eqb a' b'
-  | _, _ => false
-  end.
-
-(* 0xE11A_B1A1_E011_CFD0 read little-endian from buf[0..8] *)
-Definition OLE_SIG : list N := [208; 207; 17; 224; 161; 177; 26; 225].
-(* zip signatures: local file header, end of central directory (empty archive), spanned marker *)
+(* zip local-file-header signature *)
 Definition ZIP_LOCAL : list N := [80; 75; 3; 4].
-
-Record header : Type := mkHeader {
-  h_version : N;
-  h_sector_size : N;
-  h_dir_len : N;
-  h_dir_start : N;
-  h_fat_len : N;
-  h_mini_fat_len : N;
-  h_mini_fat_start : N;
-  h_difat_start : N;
-  h_difat_cap : N;            (* read_usize(&buf[62..76]): only a Vec capacity *)
-  h_difat : list N            (* the 109 DIFAT entries of the header *)
-}.
-
-Fixpoint u32s (fuel : nat) (b : list N) : list N :=
-  match fuel with
-  | O => []
-  | S f => match b with
-           | b0 :: b1 :: b2 :: b3 :: t => le_val [b0; b1; b2; b3] :: u32s f t
-           | _ => []
-           end
-  end.
-
-(* Header::from_reader on a reader positioned at offset 0 of [f]; also returns what is left of
-   the reader *)
-Definition header_from_reader (f : list N) : outcome (header * list N) :=
-  if (length f <? 512)%nat then Err E_IO else         (* read_exact(&mut buf) *)
-  let buf := firstn 512 f in
-  if negb (bytes_eqb (firstn 8 buf) OLE_SIG) then Err E_OLE else
-  let version := rd 2 26 buf in
-  let shift := rd 2 30 buf in
-  do sr <- (if shift =? 9 then Ok (512, skipn 512 f)
-            else if shift =? 12 then
-              (if (length f <? 4096)%nat then Err E_IO else Ok (4096, skipn 4096 f))
-            else Err E_INVALID);
-  if negb (rd 2 32 buf =? 6) then Err E_INVALID else
-  Ok (mkHeader version (fst sr) (rd 4 40 buf) (rd 4 48 buf) (rd 4 44 buf) (rd 4 64 buf)
-               (rd 4 60 buf) (rd 4 68 buf) (rd 4 62 buf) (u32s 109 (skipn 76 buf)),
-      snd sr).
-
-(* ------------------------------------------------------------------ encoding_rs *)
-Definition FFFD : N := 65533.
-Definition is_high (u : N) : bool := (55296 <=? u) && (u <? 56320).
-Definition is_low (u : N) : bool := (56320 <=? u) && (u <? 57344).
-Definition pair_scalar (h l : N) : N := 65536 + (h - 55296) * 1024 + (l - 56320).
-
-(* the UTF-16 decoder run over one complete input *)
-Fixpoint utf16_sm (be : bool) (bs : list N) (lead_byte : option N) (lead_sur : N) : list N :=
-  match bs with
-  | [] =>
-    if negb (lead_sur =? 0) || (match lead_byte with Some _ => true | None => false end)
-    then [FFFD] else []
-  | b :: rest =>
-    match lead_byte with
-    | None => utf16_sm be rest (Some b) lead_sur
-    | Some lead =>
-      let cu := if be then lead * 256 + b else b * 256 + lead in
-      if is_high cu then
-        if lead_sur =? 0 then utf16_sm be rest None cu
-        else FFFD :: utf16_sm be rest None cu
-      else if is_low cu then
-        if lead_sur =? 0 then FFFD :: utf16_sm be rest None 0
-        else pair_scalar lead_sur cu :: utf16_sm be rest None 0
-      else
-        if lead_sur =? 0 then cu :: utf16_sm be rest None 0
-        else FFFD :: cu :: utf16_sm be rest None 0
-    end
-  end.
-
-(* the UTF-8 decoder (WHATWG): state = bytes still needed, code point so far, bounds of the
-   next continuation byte.  [u8_start b] is the action on a byte in the initial state. *)
-Inductive u8_act : Type :=
-| U8Emit (c : N)
-| U8Begin (needed cp lower upper : N).
-
-Definition u8_start (b : N) : u8_act :=
-  if b <=? 127 then U8Emit b
-  else if (194 <=? b) && (b <=? 223) then U8Begin 1 (b - 192) 128 191
-  else if (224 <=? b) && (b <=? 239) then
-    U8Begin 2 (b - 224) (if b =? 224 then 160 else 128) (if b =? 237 then 159 else 191)
-  else if (240 <=? b) && (b <=? 244) then
-    U8Begin 3 (b - 240) (if b =? 240 then 144 else 128) (if b =? 244 then 143 else 191)
-  else U8Emit FFFD.
-
-Fixpoint utf8_sm (bs : list N) (needed cp lower upper : N) : list N :=
-  match bs with
-  | [] => if needed =? 0 then [] else [FFFD]
-  | b :: rest =>
-    if needed =? 0 then
-      match u8_start b with
-      | U8Emit c => c :: utf8_sm rest 0 0 128 191
-      | U8Begin n c l u => utf8_sm rest n c l u
-      end
-    else if (lower <=? b) && (b <=? upper) then
-      let cp' := cp * 64 + (b - 128) in
-      if needed =? 1 then cp' :: utf8_sm rest 0 0 128 191
-      else utf8_sm rest (needed - 1) cp' 128 191
-    else
-      (* ill-formed: one replacement, then the byte is looked at again in the initial state *)
-      FFFD :: match u8_start b with
-              | U8Emit c => c :: utf8_sm rest 0 0 128 191
-              | U8Begin n c l u => utf8_sm rest n c l u
-              end
-  end.
-
-(* `UTF_16LE.decode_without_bom_handling(bytes).0` (since the fix of C13's class bom_name; before
-   it, Encoding::decode sniffed a byte-order mark and a BOM selected the decoder).  The name
-   [utf16le_decode_bom] is kept for the callers; [utf8_sm] and the big-endian mode of [utf16_sm]
-   are no longer reached from Directory::from_slice. *)
-Definition starts_with (p bs : list N) : bool := bytes_eqb (firstn (length p) bs) p.
-Definition utf16le_decode_bom (bs : list N) : list N := utf16_sm false bs None 0.
-
-(* name.truncate(position of the first 0 byte of the UTF-8 text) = up to the first U+0000 *)
-Fixpoint until_nul (s : list N) : list N :=
-  match s with
-  | [] => []
-  | c :: t => if c =? 0 then [] else c :: until_nul t
-  end.
-
-(* ------------------------------------------------------------------ directory *)
-Record dentry : Type := mkDentry { d_name : list N; d_start : N; d_len : N }.
-
-(* Directory::from_slice(buf, sector_size): every slice index is a guarded step *)
-Definition directory_from_slice (buf : list N) (sector_size : N) : outcome dentry :=
-  if (length buf <? 64)%nat then Panic else           (* &buf[..64] *)
-  let name := until_nul (utf16le_decode_bom (firstn 64 buf)) in
-  if (length buf <? 120)%nat then Panic else          (* &buf[116..120] *)
-  let start := rd 4 116 buf in
-  if sector_size =? 512 then
-    if (length buf <? 124)%nat then Panic else Ok (mkDentry name start (rd 4 120 buf))
-  else
-    if (length buf <? 128)%nat then Panic else Ok (mkDentry name start (rd 8 120 buf)).
-
-Fixpoint all_ok (A : Type) (l : list (outcome A)) : outcome (list A) :=
-  match l with
-  | [] => Ok []
-  | o :: t => do a <- o; do r <- all_ok t; Ok (a :: r)
-  end.
-
-(* dirs.chunks(128).map(from_slice).collect(); empty => EmptyRootDir *)
-Definition parse_dirs (chain : list N) (sector_size : N) : outcome (list dentry) :=
-  do ds <- all_ok (map (fun c => directory_from_slice c sector_size) (chunks 128 chain));
-  match ds with [] => Err E_EMPTY_ROOT | _ => Ok ds end.
-
-(* Cfb::has_directory *)
-Definition has_directory (dirs : list dentry) (name : list N) : bool :=
-  existsb (fun d => bytes_eqb (d_name d) name) dirs.
 
 (* "EncryptedPackage" *)
 Definition ENCRYPTED_PACKAGE : list N :=
   [69;110;99;114;121;112;116;101;100;80;97;99;107;97;103;101].
 
-Section CfbNew.
-(* everything of Cfb::new between the header and the directory array: DIFAT, FAT, the directory
-   chain (C13).  Its result is the directory chain truncated to dir_len * sector_size when that
-   is not 0.  The mini-stream loading that follows the directory array can still fail or panic:
-   [after] is its outcome. *)
-Variable load : header -> list N -> outcome (list N).
-Variable after : header -> list dentry -> list N -> outcome unit.
+(* Cfb::has_directory over the directory array *)
+Definition has_directory (dirs : list dirent) (name : list N) : bool :=
+  existsb (fun d => list_eqb (d_name d) name) dirs.
 
-Definition cfb_dirs (f : list N) : outcome (list dentry) :=
-  do hr <- header_from_reader f;
-  do chain <- load (fst hr) f;
-  do ds <- parse_dirs chain (h_sector_size (fst hr));
-  do _ <- after (fst hr) ds f;
-  Ok ds.
-End CfbNew.
-
-(* check_for_password_protected (xlsx and xlsb) given the outcome of Cfb::new as its directory
-   array: any Err of Cfb::new is swallowed by `if let Ok(..)` *)
-Definition ooxml_check (cfb : outcome (list dentry)) : outcome unit :=
+(* check_for_password_protected given the outcome of Cfb::new as its directory array: any Err of
+   Cfb::new is swallowed by `if let Ok(..)` *)
+Definition ooxml_check (cfb : outcome (list dirent)) : outcome unit :=
   match cfb with
   | Ok dirs => if has_directory dirs ENCRYPTED_PACKAGE then Err E_PASSWORD else Ok tt
   | Err _ => Ok tt
@@ -218,8 +42,26 @@ Definition ooxml_check (cfb : outcome (list dentry)) : outcome unit :=
 
 (* Xlsx::new / Xlsb::new: the check, then ZipArchive::new and the part readers ([zip]: their
    outcome; XlsxError::Password / XlsbError::Password are constructed nowhere else) *)
-Definition ooxml_new (cfb : outcome (list dentry)) (zip : outcome unit) : outcome unit :=
+Definition ooxml_new (cfb : outcome (list dirent)) (zip : outcome unit) : outcome unit :=
   do _ <- ooxml_check cfb; zip.
+
+(* the directory array Cfb::new builds on the bytes of a file (fuel: the DIFAT walk of Cfb.v) *)
+Definition cfb_dirs (fuel : nat) (file : list N) : outcome (list dirent) :=
+  do cr <- cfb_new fuel file; Ok (directories (fst cr)).
+
+(* check_for_password_protected / Xlsx::new / Xlsb::new on the bytes of a file *)
+Definition ooxml_check_bytes (fuel : nat) (file : list N) : outcome unit :=
+  ooxml_check (cfb_dirs fuel file).
+Definition ooxml_new_bytes (fuel : nat) (file : list N) (zip : outcome unit) : outcome unit :=
+  ooxml_new (cfb_dirs fuel file) zip.
+
+(* fuel that always suffices: one unit per 512 bytes of the file, plus one *)
+Definition fuel_of_file (file : list N) : nat := S (length file / 512).
+
+(* the directory-array step of Cfb::new: chunks_exact(128), Directory::from_slice, EmptyRootDir *)
+Definition parse_dirs (chain : list N) (sector_size : N) : outcome (list dirent) :=
+  do ds <- map_outcome (fun c => from_slice c sector_size) (chunks_exact 128 chain);
+  match ds with [] => Err ERR_EMPTY_ROOT | _ => Ok ds end.
 
 (* ------------------------------------------------------------------ encoder side *)
 (* a directory entry as a writer lays it out: UTF-16LE name, NUL, then [pad] (MS-CFB asks for
